@@ -25,6 +25,7 @@ namespace Driver.Qbft
 structure DState where
   d     : Def := { nodes := 0, fifo := 0, leader := fun _ => 0 }
   nodes : List (Nat × NodeState) := []
+  miss  : Nat := 0     -- mismatches so far: the oracle search is abandoned after a few
 
 def coreKey (c : Core) : List Nat := [c.typ, c.src, c.round, c.value, c.pr, c.pv]
 
@@ -123,11 +124,14 @@ def apply (st : DState) (p : Nat) (e : Event) (obs : Option String) : DState × 
       let (n', outs) := step st.d {} n e
       (setNode st p n', showOuts outs)
     | some ob =>
-      match searchOracle st.d n e ob with
+      -- after a few mismatches the streams have diverged for good: stop paying for the search
+      let found := if st.miss < 8 then searchOracle st.d n e ob
+                   else (let r := step st.d {} n e; if showOuts r.2 == ob then some r else none)
+      match found with
       | some (n', _) => (setNode st p n', "ok")
       | none =>
         let (n', outs) := step st.d {} n e
-        (setNode st p n', "MISMATCH model=" ++ showOuts outs)
+        ({ setNode st p n' with miss := st.miss + 1 }, "MISMATCH model=" ++ showOuts outs)
 
 def stepLine (st : DState) (line : String) : DState × String :=
   let (opPart, obs) := match line.splitOn " ;; " with
@@ -137,7 +141,7 @@ def stepLine (st : DState) (line : String) : DState × String :=
   | ["cfg", a, b, c] =>
     match a.toNat?, b.toNat?, c.toNat? with
     | some n, some fifo, some off =>
-      ({ d := { nodes := n, fifo := fifo, leader := fun r => (off + r) % n }, nodes := [] }, "ok")
+      ({ d := { nodes := n, fifo := fifo, leader := fun r => (off + r) % n }, nodes := [], miss := st.miss }, "ok")
     | _, _, _ => (st, "bad-op")
   | ["start", a] =>
     match a.toNat? with
